@@ -12,7 +12,54 @@ import (
 	"github.com/grindlemire/go-lucene/pkg/lucene/expr"
 )
 
-func init() { register("Purity", H_Purity) }
+func init() {
+	register("Purity", H_Purity)
+	register("PurityDoc", H_PurityDoc)
+}
+
+// H_PurityDoc (C14): the same clauses on expressions only JSON (or the expr constructors) can
+// build: unknown operators, powers and distances the parser never produces, members of the
+// wrong kind. Decoding twice gives the same value; Validate, Render, RenderParam, String and
+// Marshal leave the expression alone; what Marshal returns does not depend on the calls made
+// before it; no package-level state is written (engine monitor).
+func H_PurityDoc() {
+	doc := jsonObject(rtParam("D"))
+	rtObserve("doc", doc)
+	rtEpoch()
+	var d, d2 expr.Expression
+	err := json.Unmarshal([]byte(doc), &d)
+	err2 := json.Unmarshal([]byte(doc), &d2)
+	rtAssert("decode-deterministic", errText(err) == errText(err2))
+	if err != nil {
+		rtReach("decode-error")
+		return
+	}
+	g := fmt.Sprintf("%#v", &d)
+	rtAssert("decode-deterministic", g == fmt.Sprintf("%#v", &d2))
+	snap := rtSnapshot(&d)
+	j0, jerr0 := json.Marshal(&d)
+	rtAssert("unchanged-by-Marshal", rtUnchanged(snap))
+	verr := expr.Validate(&d)
+	rtAssert("unchanged-by-Validate", rtUnchanged(snap))
+	rtAssert("validate-deterministic", errText(verr) == errText(expr.Validate(&d)))
+	if verr == nil {
+		s1 := d.String()
+		rtAssert("unchanged-by-String", rtUnchanged(snap))
+		rtAssert("string-deterministic", s1 == d.String())
+		sql1, rerr1 := pg.Render(&d)
+		rtAssert("unchanged-by-Render", rtUnchanged(snap))
+		sql2, rerr2 := pg.Render(&d)
+		rtAssert("render-deterministic", errText(rerr1) == errText(rerr2) && sql1 == sql2)
+		p1, a1, perr1 := pg.RenderParam(&d)
+		rtAssert("unchanged-by-RenderParam", rtUnchanged(snap))
+		p2, a2, perr2 := pg.RenderParam(&d)
+		rtAssert("renderparam-deterministic", errText(perr1) == errText(perr2) && p1 == p2 && sameParams(a1, a2))
+	}
+	j1, jerr1 := json.Marshal(&d)
+	rtAssert("marshal-deterministic", errText(jerr0) == errText(jerr1) && string(j0) == string(j1))
+	rtAssert("gostring-unchanged", g == fmt.Sprintf("%#v", &d))
+	rtReach("end")
+}
 
 // H_Purity (C14): every entry point is a function of its arguments: a second call gives the
 // same result, the shared expression is not modified by printing, validating or rendering it,
